@@ -1,6 +1,7 @@
 import AikenVerif.Model.Wire
 import AikenVerif.Model.Cek
 import AikenVerif.Model.Spec
+import AikenVerif.Model.CostSpecTable
 /-! driver `cek` / `costmodel`: the CEK impl model on wire-format terms (C03, C04, C05, C10). -/
 namespace AikenVerif.Drivers.Cek
 open AikenVerif Gen
@@ -165,6 +166,35 @@ def handleSpec (args : List String) : String :=
       | .outOfFuel => "nofuel"
     | _, _, _ => "bad-request"
   | _ => "bad-request"
+
+/-- a closed argument given on the wire: a constant, or any other term standing for a non-constant value -/
+def argValue : NTerm → Value
+  | .const c => .con c
+  | .delay t => .delay t []
+  | .lam n b => .lam n b []
+  | t => .delay t []
+
+/-- `bcost <spec|impl> <sem> <RustName> <arg terms…>`: cost of one builtin call under the SPEC recipe
+(`Spec.costSpecOf`) or the recipe regenerated from the source (`Gen.costSpec`) -/
+def handleBCost (cm : Option CostModel) (args : List String) : String :=
+  match cm, args with
+  | some cm, which :: sem :: name :: rest =>
+    match semOfString sem, Builtin.ofRustName name, Sexp.parseAll (" ".intercalate rest) with
+    | some sem, some b, some sexps =>
+      match sexps.mapM (fun sx => (Wire.termOfSexp sx : Option NTerm)) with
+      | some ts =>
+        let vals := ts.map argValue
+        let r := if which == "spec" then builtinCostWith (Spec.costSpecOf b) cm sem b vals
+                 else builtinCost cm sem b vals
+        match r with
+        | .ok c => s!"ok {c.mem} {c.cpu}"
+        | .err => "err"
+        | .panic => "panic"
+        | .unmodelled => "unmodelled"
+      | none => "bad-request"
+    | _, _, _ => "bad-request"
+  | none, _ => "no-costmodel"
+  | _, _ => "bad-request"
 
 def handleCostModel (args : List String) : Option CostModel × String :=
   match Sexp.parse (" ".intercalate args) with
